@@ -68,8 +68,12 @@ Definition cmp (s' : dsys) (r : res) (o : obs) : Z :=
   else if negb (leases_ok s') then 8%Z
   else 0%Z.
 
-(* the model follows the swap decision the translator found in stream.go (Gen/SwitchC06.v) *)
-Definition mstep := dstep sw_reuse_needs_len0 sw_reuse_needs_one_slice.
+(* the model follows the swap decision the translator found in stream.go (Gen/SwitchC06.v): the harness runs
+   the REAL Stream.ReleaseReadAndReuse.  Flush and the peer's close are stubs of the level-(i) harness (no
+   session there): the stub's fallback flag is sticky and it never sweeps, so the comparison uses that variant;
+   the source's decisions for those two are tied to the model in Props/C06.v / Props/C08.v and exercised on real
+   session pairs (modes c06m, c08cb). *)
+Definition mstep := dstep_gen sw_reuse_needs_len0 sw_reuse_needs_one_slice true true.
 
 Fixpoint run_cmp (s : dsys) (ops : list dop) (os : list obs) (i : nat) : option (nat * Z) :=
   match ops, os with
